@@ -9,6 +9,8 @@ The real `check_cmd` still runs inside the `path_segment` model, so arity errors
 """
 from __future__ import annotations
 
+import z3
+
 from .sym import EngineError, contains_sym
 
 
@@ -114,6 +116,15 @@ class PathData:
 
     def __pyvc_isinstance__(self, Ts):
         return True if str in Ts else None
+
+    def __pyvc_contains__(self, interp, item):
+        """`"x" in d`: the characters of the printed numbers are not modelled, so the answer is an arbitrary boolean
+        (both outcomes are explored) unless the data is empty"""
+        if not self.segs and self.ghost is None:
+            return False
+        if isinstance(item, str) and len(item) == 1 and item.isalpha():
+            return any(c == item for c, _ in self.segs) if self.ghost is None else interp.ctx.decide(z3.Bool(f"in!{len(interp.ctx.pc)}"))
+        return interp.ctx.decide(z3.Bool(f"in!{len(interp.ctx.pc)}"))
 
     def __pyvc_copy__(self):
         return self
